@@ -109,14 +109,44 @@ class FilterInfo(object):
 def pred_at(eng, fn_elem_to_val, xs, i):
     """z3 Bool of truth(fn(xs[i])) evaluated in pure mode."""
     eng.pure += 1
+    bound = isinstance(i, z3.ExprRef) and not z3.is_int_value(i)
+    if bound:
+        eng.pure_vars.append(i)
+        for cst in _free_consts(i):
+            if cst.get_id() in eng.bound_ids:
+                eng.pure_vars.append(cst)
     try:
         v = fn_elem_to_val(xs.get(i))
         return eng.zbool_of(v if not isinstance(v, (bool,)) else v)
     finally:
         eng.pure -= 1
+        if bound:
+            del eng.pure_vars[eng.pure_vars.index(i):]
+
+
+def _free_consts(expr):
+    out, seen, stack = [], set(), [expr]
+    while stack:
+        x = stack.pop()
+        if x.get_id() in seen:
+            continue
+        seen.add(x.get_id())
+        if z3.is_const(x) and x.decl().kind() == z3.Z3_OP_UNINTERPRETED:
+            out.append(x)
+        elif z3.is_app(x):
+            stack.extend(x.children())
+    return out
+
+
+def bvar(eng, name):
+    """fresh bound variable (registered so that assumptions mentioning it are rejected)"""
+    v = z3.Int(S.fresh_name(name))
+    eng.bound_ids.add(v.get_id())
+    return v
 
 
 JCANON = z3.Int("J!canon")
+_JCANON_ID = JCANON.get_id()
 
 
 def _flatten(v, path=()):
@@ -227,7 +257,7 @@ def slist_filter(eng, xs, pred_fn, name="flt"):
     element of the result is accessed; the cardinality lemmas only when a unit asks for them."""
     n = xs.length
     r = z3.Int(S.fresh_name(name + "_len"))
-    i = z3.Int(S.fresh_name("i"))
+    i = bvar(eng, "i")
 
     def P(ix):
         return pred_at(eng, pred_fn, xs, ix)
@@ -248,9 +278,9 @@ def slist_filter(eng, xs, pred_fn, name="flt"):
             return state["mat"]
         iota = z3.Function(S.fresh_name(name + "_iota"), z3.IntSort(), z3.IntSort())
         kappa = z3.Function(S.fresh_name(name + "_kappa"), z3.IntSort(), z3.IntSort())
-        j = z3.Int(S.fresh_name("j"))
-        j2 = z3.Int(S.fresh_name("j2"))
-        i2 = z3.Int(S.fresh_name("i2"))
+        j = bvar(eng, "j")
+        j2 = bvar(eng, "j2")
+        i2 = bvar(eng, "i2")
         eng.assume(z3.ForAll([j], z3.Implies(z3.And(0 <= j, j < r),
                                              z3.And(0 <= iota(j), iota(j) < n, P(iota(j)),
                                                     kappa(iota(j)) == j)),
@@ -290,7 +320,7 @@ def card_lemmas(eng, a, b):
     cover (every index satisfies one of them) => sum >= len.  Theorems of finite sets; z3 cannot
     derive them (they need induction), so they are library lemmas (trusted base, cross-checked).
     """
-    i = z3.Int(S.fresh_name("ci"))
+    i = bvar(eng, "ci")
     rng = z3.And(0 <= i, i < a.base_len)
     same = a.base_len == b.base_len
     pa, pb = a.pred(i), b.pred(i)
@@ -785,7 +815,7 @@ def m_enumerate(eng, args, kwargs, anysym):
 def _quant_bool(eng, xs, positive):
     """all(xs) if positive else any(xs) for a symbolic list."""
     b = z3.Bool(S.fresh_name("all" if positive else "any"))
-    i = z3.Int(S.fresh_name("qi"))
+    i = bvar(eng, "qi")
     w = z3.Int(S.fresh_name("qw"))
     rng = z3.And(0 <= i, i < xs.length)
     eng.pure += 1
